@@ -18,6 +18,8 @@ def run(run, model):
     run.do(msg.no_nondeterminism, model)
     from . import fwd
     run.do(fwd.forwarding, model, "C20.a-repr-forwarded", ("a_repr",))
+    from . import rec
+    run.do(rec.repr_coupling, model, "C20.filter-names")
     run.minimum("C20.sorted", 3)
     run.minimum("C20.a-repr", 8)
     run.minimum("C20.filter", 5)
